@@ -7,7 +7,8 @@
    model side - where the implementation iterates a set, the check sweeps PYTHONHASHSEED. *)
 From Coq Require Import ZArith QArith List Bool Permutation Arith.
 From VL Require Import Prelude.Sx Prelude.PyDict Prelude.GDict Model.GetNBest Model.HighestAverages Model.Condorcet Model.Convert
-     Proofs.GetNBest_proofs Proofs.QOrd Proofs.Order_proofs Proofs.Convert_proofs Proofs.HA_proofs Proofs.Divisor_proofs Proofs.HAPerm_proofs Proofs.HARename_proofs.
+     Proofs.GetNBest_proofs Proofs.QOrd Proofs.Order_proofs Proofs.Convert_proofs Proofs.HA_proofs Proofs.Divisor_proofs Proofs.HAPerm_proofs Proofs.HARename_proofs
+     Proofs.Condorcet_proofs Proofs.CopelandMono_proofs Proofs.Schulze_proofs Proofs.GnbSim_proofs Proofs.CondorcetOrder_proofs.
 Import ListNotations.
 Close Scope Q_scope.
 Close Scope Z_scope.
@@ -70,11 +71,117 @@ Theorem C10_highest_averages_rename : forall (f : C -> C), (forall a b, f a = f 
   evaluate d (renl f votes) n (renl f prev) (renl f caps) = ren_result f (evaluate d votes n prev caps).
 Proof. intros f Hf d votes caps prev n. exact (evaluate_ren f Hf d votes caps n prev). Qed.
 
-(* clause decided per explored case by the metamorphic streams (not proved) *)
-Definition C10_schulze_order_full_statement : Prop :=
-  forall v order order' n, Permutation order order' -> NoDup order ->
-    (forall c, In c (candidates v) <-> In c order) ->
-    forall c, In (Cand c) (schulze v order n) <-> In (Cand c) (schulze v order' n).
+(* ================================================================ the Condorcet family on pairwise dictionaries
+   v' holds the same (pair, count) entries as v in another insertion order: Permutation v v', distinct keys
+   (a Python dict), and - where stated - non-negative counts.  Vocabulary (Proofs/GnbSim_proofs.v, CondorcetOrder_proofs.v):
+     res_equiv r r'    := the two results have the same length, position by position a plain winner faces a plain
+                          winner and a tie faces a tie with the same members (Permutation), and the same candidates
+                          are elected; hence (C10_condorcet_tied_members) the same candidates are reported tied;
+     res_relz d d' x y := x, y are both plain winners with the SAME score in the score dictionary d (d' has the same
+                          content), or both ties with the same members - so a winner whose score nobody shares sits at the
+                          same position in both results (C10_condorcet_unique_position); equally placed winners may swap. *)
+Theorem C10_condorcet_tied_members : forall r r' c, res_equiv r r' ->
+  ((exists T, In (TieR T) r /\ In c T) <-> (exists T, In (TieR T) r' /\ In c T)).
+Proof. exact res_equiv_tied. Qed.
+
+Theorem C10_condorcet_unique_position : forall d d' r r' i a, Forall2 (res_relz d d') r r' -> nth_error r i = Some (Cand a) ->
+  (forall b, In b (map fst d) -> score_of d b = score_of d a -> b = a) -> nth_error r' i = Some (Cand a).
+Proof. exact relz_unique_pos. Qed.
+
+(* the content of the dictionary, the candidate set, the pairwise wins *)
+Theorem C10_condorcet_pget_order : forall v v' p, NoDup (map fst v) -> Permutation v v' ->
+  pget v' p = pget v p /\ pget0 v' p = pget0 v p.
+Proof. intros v v' p Hnd Hp. split; [exact (pget_perm v v' Hnd Hp p)|exact (pget0_perm v v' Hnd Hp p)]. Qed.
+
+Theorem C10_condorcet_pairwise_wins_order : forall v v' ties, NoDup (map fst v) -> Permutation v v' ->
+  Permutation (candidates v) (candidates v') /\ Permutation (pairwise_wins v ties) (pairwise_wins v' ties).
+Proof. intros v v' t Hnd Hp. split; [exact (cands_perm v v' Hp)|exact (wins_perm v v' Hnd Hp t)]. Qed.
+
+(* CondorcetWinner: the same answer *)
+Theorem C10_condorcet_winner_order : forall v v', NoDup (map fst v) -> Permutation v v' ->
+  condorcet_winner v' = condorcet_winner v.
+Proof. exact condorcet_winner_perm. Qed.
+
+(* Copeland, raw and second order *)
+Theorem C10_condorcet_copeland_order : forall second_order v v' n, NoDup (map fst v) -> Permutation v v' ->
+  res_equiv (copeland second_order v n) (copeland second_order v' n).
+Proof. intros so v v' n Hnd Hp. exact (copeland_equiv v v' Hnd Hp so n). Qed.
+
+(* ... position by position the same (first-order) Copeland score - raw and second order
+   (cscores = the score dictionary get_n_best is applied to) *)
+Theorem C10_condorcet_copeland_positions : forall second_order v v' n, NoDup (map fst v) -> Permutation v v' ->
+  Permutation (cscores v) (cscores v') /\
+  Forall2 (res_relz (cscores v) (cscores v')) (copeland second_order v n) (copeland second_order v' n).
+Proof. intros so v v' n Hnd Hp. split; [exact (cscores_perm v v' Hnd Hp)|exact (copeland_sim v v' Hnd Hp so n)]. Qed.
+
+(* MinimaxCondorcet, the three scorers (mscores = the negated max-counterscore dictionary) *)
+Theorem C10_condorcet_minimax_order : forall s v v' n, NoDup (map fst v) -> Permutation v v' ->
+  res_equiv (minimax s v n) (minimax s v' n) /\
+  Forall2 (res_relz (mscores s v) (mscores s v')) (minimax s v n) (minimax s v' n).
+Proof. intros s v v' n Hnd Hp. split; [exact (minimax_equiv v v' Hnd Hp s n)|exact (minimax_sim v v' Hnd Hp s n)]. Qed.
+
+(* Schulze: another insertion order of the dictionary AND any two iteration orders of the candidate set
+   (sscores = the dictionary of path-win counts) *)
+Theorem C10_condorcet_schulze_order : forall v v' order order' n, NoDup (map fst v) -> (forall p k, In (p, k) v -> (0 <= k)%Z) ->
+  Permutation v v' -> incl (candidates v) order -> incl (candidates v') order' ->
+  res_equiv (schulze v order n) (schulze v' order' n) /\
+  Forall2 (res_relz (sscores v order) (sscores v' order')) (schulze v order n) (schulze v' order' n).
+Proof.
+  intros v v' o o' n Hnd Hnn Hp Hi Hi'. split; [exact (schulze_equiv v v' Hnd Hnn Hp o o' n Hi Hi')|exact (schulze_sim v v' Hnd Hnn Hp o o' n Hi Hi')].
+Qed.
+
+(* the clause formerly only stated (C10_schulze_order_full_statement), with the two facts every real input satisfies
+   made explicit (distinct keys: a dict; non-negative counts) - the result is even EQUAL.  The version without them
+   is neither proved nor refuted: no counterexample among all 15625 sparse dictionaries over 3 candidates with counts in
+   {-2..1} and all 5832 three-entry lists with repeated keys *)
+Theorem C10_condorcet_schulze_iteration_order : forall v order order' n, NoDup (map fst v) -> (forall p k, In (p, k) v -> (0 <= k)%Z) ->
+  Permutation order order' -> NoDup order -> (forall c, In c (candidates v) <-> In c order) ->
+  schulze v order n = schulze v order' n /\
+  forall c, In (Cand c) (schulze v order n) <-> In (Cand c) (schulze v order' n).
+Proof.
+  intros v o o' n Hnd Hnn Hp _ Hc.
+  assert (E : schulze v o n = schulze v o' n).
+  { apply (schulze_order_irrelevant v Hnd Hnn o o' n); intros c Hin; [apply Hc, Hin|apply (Permutation_in _ Hp), Hc, Hin]. }
+  split; [exact E|]. intros c. rewrite E. reflexivity.
+Qed.
+
+(* KemenyYoung: the same answer, the same refusal *)
+Theorem C10_condorcet_kemeny_order : forall v v' n, NoDup (map fst v) -> Permutation v v' -> kemeny v' n = kemeny v n.
+Proof. intros v v' n Hnd Hp. exact (kemeny_perm v v' n Hnd Hp). Qed.
+
+(* SmithSet: the same members (their order follows the Copeland order, stable among equal scores) *)
+Theorem C10_condorcet_smith_order : forall v v', NoDup (map fst v) -> (forall p k, In (p, k) v -> (0 <= k)%Z) -> Permutation v v' ->
+  Permutation (smith_schwartz v true) (smith_schwartz v' true).
+Proof. exact smith_perm. Qed.
+
+(* SchwartzSet is NOT order independent (known finding C10-schwartz-order): {(1,2):1,(2,1):1,(1,3):2,(3,1):0,(2,3):2,(3,2):0}
+   returns [1]; listing the pairs of 2 first returns [2] *)
+Theorem C10_condorcet_schwartz_order_refuted : exists v v', NoDup (map fst v) /\ (forall p k, In (p, k) v -> (0 <= k)%Z) /\ Permutation v v' /\
+  exists c, In c (smith_schwartz v false) /\ ~ In c (smith_schwartz v' false).
+Proof. exact schwartz_order_refuted. Qed.
+
+(* RankedPairs on the profiles the property quantifies over - pairwise distinct sort keys (strength under the scorer,
+   votes for the pair) over the ordered pairs of candidates: the same answer *)
+Theorem C10_condorcet_ranked_pairs_order : forall s v v' n, NoDup (map fst v) -> Permutation v v' -> rp_distinct_b s v = true ->
+  ranked_pairs s v' n = ranked_pairs s v n.
+Proof. exact ranked_pairs_perm. Qed.
+
+(* ... and NOT otherwise (the exclusion in the property text is necessary): a three-cycle of 2:1 majorities elects
+   the candidate whose pair was inserted first, under each of the three scorers *)
+Theorem C10_condorcet_ranked_pairs_order_refuted : exists v v', NoDup (map fst v) /\ (forall p k, In (p, k) v -> (0 <= k)%Z) /\ Permutation v v' /\
+  forall s, exists c c', c <> c' /\ ranked_pairs s v 1 = CR_ok [Cand c] /\ ranked_pairs s v' 1 = CR_ok [Cand c'].
+Proof. exact ranked_pairs_order_refuted. Qed.
+
+(* non-vacuity of the hypotheses and of "up to the order inside ties": a dictionary with a three-cycle, permuted *)
+Example C10_condorcet_example :
+  let v  := mk_pv [(1,2,3);(2,1,1);(2,3,3);(3,2,1);(3,1,3);(1,3,1);(1,4,4);(4,1,0);(2,4,4);(4,2,0);(3,4,2);(4,3,2)]%Z in
+  let v' := mk_pv [(4,3,2);(3,4,2);(3,1,3);(1,3,1);(2,3,3);(3,2,1);(1,2,3);(2,1,1);(4,2,0);(2,4,4);(4,1,0);(1,4,4)]%Z in
+  nodup_keys_b v = true /\ forallb (fun pn : pair * Z => (0 <=? snd pn)%Z) v = true /\ list_perm_b v v' = true /\
+  minimax Margins v 1 = [TieR [2; 3; 1]]%positive /\ minimax Margins v' 1 = [TieR [3; 1; 2]]%positive /\
+  schulze v [1; 2; 3; 4]%positive 1 = [TieR [1; 2; 3]]%positive /\ schulze v' [4; 3; 2; 1]%positive 1 = [TieR [3; 1; 2]]%positive /\
+  copeland false v 1 = [TieR [1; 2]]%positive /\ copeland true v' 1 = [Cand 1]%positive /\
+  rp_distinct_b WinningVotes rp_ok_v = true.
+Proof. vm_compute. repeat split; reflexivity. Qed.
 
 (* non-vacuity *)
 Example C10_example :
@@ -89,3 +196,18 @@ Print Assumptions C10_rename.
 Print Assumptions C10_ballot_order.
 Print Assumptions C10_highest_averages_order.
 Print Assumptions C10_highest_averages_rename.
+Print Assumptions C10_condorcet_tied_members.
+Print Assumptions C10_condorcet_unique_position.
+Print Assumptions C10_condorcet_pget_order.
+Print Assumptions C10_condorcet_pairwise_wins_order.
+Print Assumptions C10_condorcet_winner_order.
+Print Assumptions C10_condorcet_copeland_order.
+Print Assumptions C10_condorcet_copeland_positions.
+Print Assumptions C10_condorcet_minimax_order.
+Print Assumptions C10_condorcet_schulze_order.
+Print Assumptions C10_condorcet_schulze_iteration_order.
+Print Assumptions C10_condorcet_kemeny_order.
+Print Assumptions C10_condorcet_smith_order.
+Print Assumptions C10_condorcet_schwartz_order_refuted.
+Print Assumptions C10_condorcet_ranked_pairs_order.
+Print Assumptions C10_condorcet_ranked_pairs_order_refuted.
